@@ -425,11 +425,19 @@ def verify_main(spec):
                 sk = crypto.key_from_private_bin(_unhx(skh))
                 ps = mgr.get_pseudonym(sk)
                 toks = list(ps.tree.elements.values())
+                big = len(toks) > 80 or len(ps.credentials) > 80
+                # TokenTree.verify walks the whole chain (quadratic over a store): beyond 80 tokens a spread sample
+                sample = toks if not big else (toks[::max(1, len(toks) // 10)] + toks[-2:])
+                stored = list(mgr.database.get_tokens_for(sk.pub()))        # iteration order of the reload loop
                 r = {"pk": _cx(sk.pub().key_to_bin()), "credentials_loaded": len(ps.credentials),
                      "tokens": len(toks),
-                     "tokens_verify": [bool(ps.tree.verify(t)) for t in toks],
+                     "tokens_verify": [bool(ps.tree.verify(t)) for t in sample],
+                     "genesis": ps.tree.genesis_hash.hex(),
+                     "reload_order": [[t.get_hash().hex(), t.previous_token_hash.hex()] for t in stored],
+                     "rebuilt_hashes": sorted(h.hex() for h in ps.tree.elements),
+                     "unchained_max_size": getattr(ps.tree, "unchained_max_size", None),
                      "credentials": []}
-                for cred in ps.get_credentials():
+                for ci, cred in enumerate(ps.get_credentials()):
                     md = cred.metadata
                     atts = []
                     for att in cred.attestations:
@@ -437,8 +445,9 @@ def verify_main(spec):
                         atts.append(bool(att.verify(auth)))
                     r["credentials"].append({"md_verify": bool(md.verify(sk.pub())),
                                              "token_present": md.token_pointer in ps.tree.elements,
-                                             "token_verifies": (md.token_pointer in ps.tree.elements
-                                                                and bool(ps.tree.verify(ps.tree.elements[md.token_pointer]))),
+                                             "token_verifies": (None if big and ci % 40 else
+                                                                (md.token_pointer in ps.tree.elements
+                                                                 and bool(ps.tree.verify(ps.tree.elements[md.token_pointer])))),
                                              "attestations_verify": atts})
                 # every attestation row points to a stored metadata row
                 res[skh] = r
@@ -756,6 +765,27 @@ def parse_timeline(reply):
     return out
 
 
+def parse_timeline_compact(reply):
+    """same shape as parse_timeline, from the `tlc` form"""
+    parts = reply.split(";")
+    order = parts[0][len("order="):]
+    rows = [tuple(int(y) for y in x.split(".")) for x in order.split(",")] if order else []
+    a = parts[1][len("acks="):]
+    acks = [int(x) for x in a.split(",")] if a else []
+    out = []
+    for ent in parts[2:]:
+        lab, na, nr = ent.split("|")
+        e = (acks[:int(na)], sorted(rows[:int(nr)]))
+        if lab == "D":
+            continue
+        if lab == "exC":
+            out.append(("C",) + e)
+            out.append(("ex",) + e)
+        else:
+            out.append((lab,) + e)
+    return out
+
+
 # ---- one experiment ------------------------------------------------------------------------------
 class Experiment:
     """phases: op lists run by successive processes on the same file; the last process carries the kill"""
@@ -971,7 +1001,9 @@ def oracle(ctx, exp: Experiment, r) -> bool:
         if "rebuild_error" in dump:
             fail("PseudonymManager.__init__:rebuild-raises", f"rebuilding the pseudonym raised {dump['rebuild_error']}")
         for skh, rr in (dump.get("rebuild") or {}).items():
-            ctx.count("rebuilt_tokens:%d" % min(rr["tokens"], 12))
+            n = rr["tokens"]
+            ctx.count("rebuilt_tokens:" + (str(n) if n < 8 else "8-30" if n <= 30 else "31-100" if n <= 100 else
+                                            "101-250" if n <= 250 else "251+"))
             n_tok = sum(1 for kk, d in present.items() if kk[0] == "Tokens" and d.get("public_key") == rr.get("pk"))
             n_md = sum(1 for kk, d in present.items() if kk[0] == "Metadata" and d.get("public_key") == rr.get("pk"))
             if rr["tokens"] != n_tok or len(rr["credentials"]) != n_md or rr.get("credentials_loaded") != n_md:
@@ -982,7 +1014,7 @@ def oracle(ctx, exp: Experiment, r) -> bool:
                 fail("PseudonymManager.__init__:rebuilt-token-does-not-verify",
                      f"{rr['tokens_verify'].count(False)} of {rr['tokens']} reloaded tokens fail TokenTree.verify")
             for cr in rr["credentials"]:
-                if not (cr["md_verify"] and cr["token_present"] and cr["token_verifies"]):
+                if not (cr["md_verify"] and cr["token_present"] and cr["token_verifies"] is not False):
                     fail("PseudonymManager.__init__:rebuilt-credential-dangling",
                          f"a reloaded credential does not verify / points to a missing token: {cr}")
                 if not all(cr["attestations_verify"]):
@@ -1030,11 +1062,15 @@ def model_compare(ctx, exp: Experiment, r, drv) -> None:
         d = dict(zip(row["cols"], row["vals"]))
         val_of[(row["table"], tuple(d.get(c) for c in t["cols"]))] = v
         toks.append(f"m{mi}.0{cut}:{k}:{v}")
-    reply = drv.ask("tl " + " ".join(toks)) if toks else "init||"
+    long_wl = len(toks) > 60
+    reply = drv.ask(("tlc " if long_wl else "tl ") + " ".join(toks)) if toks else "init||"
+    if reply == "nonmonotone":
+        long_wl = False
+        reply = drv.ask("tl " + " ".join(toks))
     if reply == "bad-op":
         ctx.disagree("model driver rejected the workload line", {"line": " ".join(toks)[:400]})
         return
-    tl = [e for e in parse_timeline(reply) if e[0] != "kk"]
+    tl = [e for e in (parse_timeline_compact(reply) if long_wl else parse_timeline(reply)) if e[0] != "kk"]
     model_labels = [e[0] for e in tl[1:]]
     obs = list(tr.labels)
     n = len(obs)
@@ -1056,6 +1092,8 @@ def model_compare(ctx, exp: Experiment, r, drv) -> None:
     ctx.count("model:compared")
     if exp.kind == "manager" and not any(exp.kills):
         causal_check(ctx, exp, tr, tables, it, toks, drv)
+    if exp.kind == "manager":
+        reload_compare(ctx, exp, dump, drv)
     if got not in preds:
         ctx.disagree(f"reopened content differs from the model's prediction at crash point {n}: "
                      f"implementation {got} vs model {preds} [{exp.label} {exp.kill}]", rep)
@@ -1064,6 +1102,39 @@ def model_compare(ctx, exp: Experiment, r, drv) -> None:
                      f"[{exp.label} {exp.kill}]", rep)
     elif len(cands) > 1 and preds[0] != preds[1]:
         ctx.count("kill_inside_primitive:" + ("took-effect" if got == preds[1] else "no-effect"))
+
+
+def reload_compare(ctx, exp, dump, drv):
+    """reload path: the tokens the real PseudonymManager has in its rebuilt tree against the model's `reload` of the
+    stored tokens in the order the store returned them"""
+    for skh, rr in (dump.get("rebuild") or {}).items():
+        order = rr.get("reload_order")
+        if order is None:
+            continue
+        ids = {}
+        for hsh, _ in order:
+            ids.setdefault(hsh, len(ids))
+        line = []
+        for hsh, prev in order:
+            if prev == rr.get("genesis"):
+                p = "-"
+            else:
+                p = str(ids.setdefault(prev, len(ids)))     # a predecessor that is not stored gets an id of its own
+            line.append(f"{ids[hsh]}:{p}")
+        rep = drv.ask("reload " + " ".join(line)) if line else "[]"
+        try:
+            model = sorted(int(x) for x in rep.strip("[]").split(",") if x)
+        except ValueError:
+            ctx.disagree(f"model driver rejected the reload line: {rep[:80]}", {"experiment": exp.to_replay()})
+            return
+        got = sorted(ids[h] for h in rr.get("rebuilt_hashes", []) if h in ids)
+        extra = [h for h in rr.get("rebuilt_hashes", []) if h not in ids]
+        n = len(order)
+        ctx.count("reload_compared:" + ("0" if n == 0 else "1-30" if n <= 30 else "31-100" if n <= 100 else
+                                        "101-250" if n <= 250 else "251+"))
+        if got != model or extra:
+            ctx.disagree(f"rebuilt tree differs from the model's reload: implementation has {len(got)} of {n} stored tokens"
+                         f" (+{len(extra)} others), model {len(model)} [{exp.label}]", {"experiment": exp.to_replay()})
 
 
 def causal_check(ctx, exp, tr, tables, it, toks, drv):
@@ -1206,6 +1277,40 @@ def gen_manager_ops(rng, n_ops):
                         "json": {"name": "attr%d" % i, "schema": "id_metadata", "date": 1000 + i}, "after": after})
             mine.append(i)
     return ops, [_hx(s) for s in sks]
+
+
+def reload_bound():
+    """the bound of the in-memory structures the reload path may use (TokenTree's buffer of tokens waiting for their
+    predecessor), read from the working tree; workload sizes are chosen relative to it"""
+    try:
+        from ipv8.attestation.tokentree.tree import TokenTree
+        from ipv8.keyvault.crypto import ECCrypto
+        t = TokenTree(private_key=ECCrypto().key_from_private_bin(b"LibNaCLSK:" + bytes(64)))
+        return int(getattr(t, "unchained_max_size", 100))
+    except Exception:  # noqa: BLE001
+        return 100
+
+
+def gen_store_ops(rng, n_creds, shape):
+    """one pseudonym with a large store: `chain` (every credential after the previous one, as self_advertise does),
+    `bushy` (after a random earlier one), `star` (all after the first), `roots` (all directly under genesis)"""
+    sk = b"LibNaCLSK:" + rb(rng, 64)
+    ak = b"LibNaCLSK:" + rb(rng, 64)
+    ops = []
+    for i in range(n_creds):
+        if i == 0 or shape == "roots":
+            after = None
+        elif shape == "chain":
+            after = len(ops) - 1 if ops[-1]["op"] == "cred" else len(ops) - 2
+        elif shape == "star":
+            after = 0
+        else:
+            after = rng.choice([j for j, o in enumerate(ops) if o["op"] == "cred"])
+        ops.append({"op": "cred", "sk": _hx(sk), "hash": _hx(rb(rng, 32)),
+                    "json": {"name": "attr%d" % len(ops), "schema": "id_metadata"}, "after": after})
+        if rng.random() < 0.04:
+            ops.append({"op": "mgratt", "sk": _hx(sk), "ak": _hx(ak), "cred": len(ops) - 1})
+    return ops, [_hx(sk)]
 
 
 def scripted(rng):
@@ -1385,10 +1490,12 @@ class Runner:
                                                                    any("S:INSERT" == p for p in tr.open_points)))
 
 
-def exhaustive(runner: Runner, exp: Experiment, stride=1, rng=None):
-    """kill at every event index of the last phase (or every `stride`-th, random offset)"""
+def exhaustive(runner: Runner, exp: Experiment, stride=1, rng=None, samples=None):
+    """kill at every event index of the last phase (or every `stride`-th, random offset; or about `samples` of them)"""
     probe = runner.run_all([with_kill(exp, {"mode": "none"})])[0]
     total = probe["trace"].points
+    if samples:
+        stride = max(1, total // samples)
     runner.ctx.count("points_per_workload:%d" % (total // 10 * 10))
     start = 1 if stride == 1 else 1 + rng.randrange(stride)
     exps = [with_kill(exp, {"mode": "point", "at": n}) for n in range(start, total + 1, stride)]
@@ -1424,8 +1531,9 @@ def run(ctx):
             probe = exhaustive(runner, exp)
             if exp.label in ("scripted-identity", "scripted-wallet", "scripted-blocks"):
                 fsize_runs(runner, exp, probe, rng, ctx.scale(12, 150))
+        ctx.extra["t_scripted_s"] = round(ctx.elapsed(), 1)
         # generated workloads
-        n_gen = ctx.scale(70, 360)
+        n_gen = ctx.scale(44, 360)
         for i in range(n_gen):
             kind = rng.choice(["identity", "identity", "wallet", "manager"])
             n_ops = rng.choice([3, 6, 10, 16, 24])
@@ -1459,6 +1567,29 @@ def run(ctx):
                 fsize_runs(runner, exp, probe, rng, ctx.scale(4, 12))
             if i % 4 == 1:
                 timed_runs(runner, exp, rng, ctx.scale(6, 12), 0.004 * max(1, len(ops)) / 4)
+        ctx.extra["t_generated_s"] = round(ctx.elapsed(), 1)
+        # stores larger than the in-memory bounds of the reload path (sizes relative to the bound read from the tree)
+        cap = reload_bound()
+        ctx.extra["reload_bound"] = cap
+        sizes = [max(8, cap // 3), cap + 25, 2 * cap + 60] + ([4 * cap + 30] if thorough else [])
+        stores = []
+        for si, size in enumerate(sizes):
+            for shape in ["chain", ["bushy", "star", "roots", "bushy"][(si + ctx.seed) % 4]]:
+                ops, sks = gen_store_ops(rng, size, shape)
+                ctx.count(f"store_shape:{shape}")
+                ctx.count("store_credentials:%d" % size)
+                phases = split_phases(rng, ops, 3) if rng.random() < 0.5 else [ops]
+                stores.append((size, Experiment("manager", phases, None, f"store-{shape}-{size}", sks=sks)))
+        probes = runner.run_all([with_kill(e, {"mode": "none"}) for _, e in stores])
+        kills = []
+        for (size, e), pr in zip(stores, probes):
+            total = pr["trace"].points
+            for _ in range(ctx.scale(4, 20)):
+                kills.append(with_kill(e, {"mode": "point", "at": rng.randrange(1, total + 1)}))
+            for _ in range(ctx.scale(1, 4)):
+                kills.append(with_kill(e, {"mode": "timed", "delay": round(rng.random() * 0.0015 * size, 5)}))
+        runner.run_all(kills)
+        ctx.extra["t_stores_s"] = round(ctx.elapsed(), 1)
         ctx.extra["crash_runs"] = runner.n
     finally:
         runner.close()
